@@ -10,7 +10,10 @@ pairing is connected afterwards.  Independently of the model, `oracle` states th
 directly on the observed logs and decides whether a disagreement is a violation by the code.
 
 History (JSON-able list of macro steps):
-  ["S", ids, script, opts]   await pairing.subscribe(ids)        opts: {"as_set": bool}
+  ["S", ids, script, opts]   await pairing.subscribe(ids)        opts: {"as_set": bool} or {"cont": kind of Iterable the
+                             ids are passed as, see CONTAINERS / mk_arg: list tuple set frozenset dict dictkeys deque gen
+                             iter mapiter}; SW also {"mutate": "clear"|"extend"} = what the caller does to that container
+                             while its call is suspended
   ["U", ids, script, opts]   await pairing.unsubscribe(ids)
   ["A", l] / ["D", l]        dispatcher_connect(listener l) / its stop callable
   ["CU", script]             let the connector establish a new secure session (virtual time advances
@@ -592,6 +595,7 @@ def oracle(hist, rmodes, impl, lacts=None):
     lacts = {int(k): v for k, v in (lacts or {}).items()}
     wanted, registered, cutoff, live = set(), set(), False, False
     asked = set()
+    oneshot_ids = set()
     unobs = unobservable(lacts)
 
     def delivered(ev):
@@ -686,8 +690,11 @@ def oracle(hist, rmodes, impl, lacts=None):
                     asked.difference_update(tuple(c) for c in ids)
         # C12, first sentence, at every quiescent point of a live session (not only right after a reconnect): unless a
         # subscribe request was ever cut off, everything the caller is subscribed to has been asked for on THIS session
+        if k in ("S", "SW") and cont_of(item[3] if len(item) > 3 else {}) in ONE_SHOT:
+            oneshot_ids |= {tuple(c) for c in item[1]}
         if k in ("S", "U", "SW", "CU") and o["connected"] and not cutoff and not wanted <= asked:
-            bad.append(("session:subscribed-but-not-asked",
+            # own key when everything that is missing was named through a one-shot iterable (generator / iterator)
+            bad.append(("session:subscribed-but-not-asked" + (":one-shot-iterable" if wanted - asked <= oneshot_ids else ""),
                         f"the session is up and no subscribe request was ever cut off, the caller is subscribed to "
                         f"{sorted(wanted)}, but on this session the accessory has only been asked to notify {sorted(asked)}",
                         idx))
@@ -825,6 +832,40 @@ def gen_kinds():
                     yield hist + PROBE, rm, la
 
 
+def gen_containers():
+    """Argument CONTAINER kinds of subscribe()/unsubscribe() (declared Iterable[tuple[int, int]]): every kind in
+    CONTAINERS (incl. the one-shot ones: generator, list iterator, map object) x call on a live session / while
+    disconnected / waiting for the session (SW; mutable containers also cleared by the caller while the call is
+    suspended) / answered 207 / followed by a second call with the same kind on the same pairing object."""
+    pre = [["A", 1], ["S", [[1, 2], [2, 2]], {}, {}], ["CU", {}]]
+    ids = [[1, 2], [1, 3], [2, 3]]
+    for c in CONTAINERS:
+        o = {"cont": c}
+        hs = [pre + [["S", ids, {}, o]],
+              pre + [["U", [[1, 2], [2, 2]], {}, o]],
+              pre + [["S", ids, {"2": ["s", [[2, 3, -70402]]]}, o], ["S", [[2, 3], [1, 3]], {}, o]],
+              pre + [["S", ids, {}, o], ["U", [[1, 3], [2, 3]], {"1": ["s", [[1, 3, -70406]]]}, o], ["S", [[2, 3]], {}, o]],
+              pre + [["CD", "fin"], ["S", ids, {}, o], ["CU", {}]],
+              pre + [["CD", "reset"], ["U", [[2, 2]], {}, o], ["CU", {}], ["S", [[2, 2]], {}, o]],
+              pre + [["CD", "reset"], ["SW", [[1, 3], [2, 3]], {}, o]],
+              [["A", 1], ["SW", ids, {}, o], ["S", [[2, 2]], {}, o]]]
+        if c in ("list", "set", "dict", "deque"):
+            hs.append(pre + [["CD", "fin"], ["SW", [[1, 3], [2, 3]], {}, {"cont": c, "mutate": "clear"}]])
+            hs.append([["A", 1], ["SW", ids, {}, {"cont": c, "mutate": "clear"}]])
+        for h in hs:
+            yield h + PROBE, {}, {}
+
+
+def rand_opts(r):
+    """container kind of a random subscribe/unsubscribe argument: ONE draw (list 45 %, set 30 %, the others 25 %)"""
+    x = r.random()
+    if x < 0.3:
+        return {"as_set": True}
+    if x < 0.55:
+        return {"cont": CONTAINERS[int((x - 0.3) / 0.25 * len(CONTAINERS)) % len(CONTAINERS)]}
+    return {"as_set": False}
+
+
 def rand_script(r):
     if r.random() < 0.6:
         return {}
@@ -898,9 +939,9 @@ def gen_random(r, n):
         for _ in range(r.choice([3, 5, 8, 12, 20])):
             x = r.random()
             if x < 0.2:
-                hist.append(["S", rand_ids(r), rand_script(r) if up else {}, {"as_set": r.random() < 0.3}])
+                hist.append(["S", rand_ids(r), rand_script(r) if up else {}, rand_opts(r)])
             elif x < 0.32:
-                hist.append(["U", rand_ids(r), rand_script(r) if up else {}, {"as_set": r.random() < 0.3}])
+                hist.append(["U", rand_ids(r), rand_script(r) if up else {}, rand_opts(r)])
             elif x < 0.42:
                 hist.append(["A", r.choice([1, 2, 3, 4])])
             elif x < 0.48:
@@ -911,7 +952,7 @@ def gen_random(r, n):
                     up = False
                 elif r.random() < 0.2:
                     rs = {k: v for k, v in rand_script(r).items() if v[0] == "s"}
-                    hist.append(["SW", rand_ids(r), rs, {"as_set": r.random() < 0.3}])
+                    hist.append(["SW", rand_ids(r), rs, rand_opts(r)])
                     up = True
                 else:
                     hist.append(["CU", rand_script(r)])
@@ -1650,6 +1691,9 @@ def run(ctx):
         n_burst = len(cases) - n_ex
         cases += list(gen_kinds())
         n_kinds = len(cases) - n_ex - n_burst
+        n_cont0 = len(cases)
+        cases += list(gen_containers())
+        n_cont = len(cases) - n_cont0
         cases += list(gen_random(rng(seed, "c12rand"), nrand))
         cp = os.path.join(ctx["verif"], "harness", "corpus", "C12.json")
         for item in (json.load(open(cp)) if os.path.exists(cp) else []):
@@ -1671,7 +1715,11 @@ def run(ctx):
             f"plus {n_kinds} listener-kind histories: listener 2 as each of 7 kinds of Python callable (closure, lambda, "
             "bound method, functools.partial, instance with __call__, C callable recording / C callable raising) x "
             "never/always/connection-back-only/real-events-only raising x re-entrant or not, between plain or "
-            "partial/callable-object neighbours; the 14 behaviour tables of the main stream also vary the kind")
+            "partial/callable-object neighbours; the 14 behaviour tables of the main stream also vary the kind; "
+            f"plus {n_cont} argument-container histories: subscribe()/unsubscribe() given each of {len(CONTAINERS)} kinds of "
+            "Iterable (list, tuple, set, frozenset, dict, dict keys view, deque, generator, list iterator, map object) on a "
+            "live session / while disconnected / while waiting for the session (mutable ones also cleared by the caller "
+            "while the call is suspended) / answered 207 / twice on one pairing object; the random stream draws the kind too")
     lines = [model_line(h, ints(rm), ints(la)) for h, rm, la in cases]
     answers = drv.batch(lines)
     if tier == "thorough" and len(cases) > 5000:
@@ -1701,6 +1749,9 @@ def run(ctx):
                  reentrant=",".join(f"{k}:{v[0]}" for k, v in sorted(la.items()) if v[1]) or "none",
                  listener_kinds=",".join(sorted({v[2] for v in la.values() if len(v) > 2})) or "fn",
                  raising_kinds=",".join(sorted({(la.get(k, [0, [], "fn"]) + ["fn"])[2] for k in rm})) or "none",
+                 arg_containers=",".join(sorted({cont_of(it[3] if len(it) > 3 else {}) for it in hist
+                                                 if it[0] in ("S", "U", "SW")})) or "none",
+                 arg_mutated_while_suspended=str(any(it[0] == "SW" and it[3].get("mutate") for it in hist)),
                  event_msgs=sum(len(it[1]) for it in hist if it[0] == "EB"),
                  event_frames=max([len(frame_layout(it[1], it[3] if len(it) > 3 else {})) for it in hist if it[0] == "EB"]),
                  event_reads=max([o.get("reads", 0) for o in impl["steps"]]))
